@@ -1,6 +1,7 @@
 package c11
 
 import (
+	"strings"
 	"fmt"
 	"math/big"
 
@@ -113,7 +114,15 @@ func (e *env) judgeGuard(t *task, key, what string, rec map[string]interface{}, 
 		t.violate("c06-overlap/"+key+":panic", "panic in the code under test ("+res.pan+") at "+res.site+" [C06's business]", rec)
 	case res.acc:
 		outcome = "no-error"
-		t.violate(key+":no-error", what, rec)
+		// Narrow reading of the domain clause (see DESIGN.md C11/C14): the gcd ("shares a factor with N")
+		// refusal is required where a ciphertext is decrypted; HomoAdd/HomoMult must refuse values outside
+		// [0,N) / [0,N^2). Non-unit ciphertexts accepted by the homomorphic operations are counted only.
+		if strings.Contains(key, "/nonunit-") && (strings.HasPrefix(key, "paillier/HomoMult/") || strings.HasPrefix(key, "paillier/HomoAdd/")) {
+			outcome = "nonunit-accepted-by-homomorphic-op(counted, not required to be refused)"
+			r.Count("nonunit_accepted_by_homo_ops", 1)
+		} else {
+			t.violate(key+":no-error", what, rec)
+		}
 	}
 	r.Count("outcome/guard-"+outcome, 1)
 	r.Distinct("outcomes", t.family+"/"+outcome)
